@@ -136,12 +136,12 @@ def check_object(R, what, obj, temps, wit, selements_ok=False):
                                 'argument %r' % (what, flag, v[1], base[1]), wit)
 
 
-def check_elements(R, name, lib, smi):
+def check_elements(R, name, lib, smi, as_object=False):
     """Decompose immediately before the estimate; S relative to elements."""
     from rdkit import Chem
     import pmutt.constants as c
-    wit = dict(kind='elem', lib=name, smiles=smi)
-    r = E.ev(lib.GetDescriptors, smi)
+    wit = dict(kind='elem', lib=name, smiles=smi, as_object=as_object)
+    r = E.ev(lib.GetDescriptors, Chem.MolFromSmiles(smi) if as_object else smi)
     if r[0] != 'ok':
         R.outcomes['elements:not-decomposable'] += 1
         return
@@ -236,6 +236,7 @@ def run_shard(shard, tier):
         from rdkit import Chem
         for smi in mols[shard[2]::shard[3]]:
             check_elements(R, shard[1], lib, smi)
+            check_elements(R, shard[1], lib, smi, as_object=True)
             # the same molecule written with every hydrogen inside an atom
             # bracket ([CH3][CH2][OH]) and with hydrogens as atoms
             m = Chem.MolFromSmiles(smi)
@@ -249,7 +250,7 @@ def run_shard(shard, tier):
 def replay(w):
     R = Result()
     if w['kind'] == 'elem':
-        check_elements(R, w['lib'], E.fresh(w['lib']), w['smiles'])
+        check_elements(R, w['lib'], E.fresh(w['lib']), w['smiles'], w.get('as_object', False))
     else:
         run_estimates(R, w['lib'], 0, 1, only=w['mapping'])
     return dict(violates=bool(R.violations),
